@@ -273,6 +273,8 @@ struct Call {
     /// that are no longer in the palette)
     args: Vec<usize>,
     text: String,
+    /// positions that hold the same palette expression receive one and the same object
+    aliased: bool,
 }
 
 impl Call {
@@ -282,10 +284,32 @@ impl Call {
         } else {
             g::call_text(proc, args)
         };
-        Call { proc: proc.to_string(), args: args.to_vec(), text }
+        Call { proc: proc.to_string(), args: args.to_vec(), text, aliased: false }
+    }
+    /// The palette index that occurs at two or more positions and denotes a mutable container
+    /// (vector, list, string), if any: the candidate for an aliased variant of the call.
+    fn alias_candidate(args: &[usize]) -> Option<usize> {
+        args.iter().copied().find(|a| {
+            matches!(PALETTE[*a].group, Group::Vector | Group::List | Group::Str) && args.iter().filter(|b| *b == a).count() >= 2
+        })
+    }
+    /// `(let ((c06-shared E)) (proc ... c06-shared ... c06-shared ...))`
+    fn new_aliased(proc: &str, args: &[usize], shared: usize) -> Call {
+        let mut text = format!("(let ((c06-shared {})) ({}", PALETTE[shared].expr, proc);
+        for a in args {
+            text.push(' ');
+            text.push_str(if *a == shared { "c06-shared" } else { PALETTE[*a].expr });
+        }
+        text.push_str("))");
+        Call { proc: proc.to_string(), args: args.to_vec(), text, aliased: true }
     }
     fn classes(&self) -> String {
-        self.args.iter().map(|a| PALETTE[*a].class).collect::<Vec<_>>().join(" ")
+        let c = self.args.iter().map(|a| PALETTE[*a].class).collect::<Vec<_>>().join(" ");
+        if self.aliased {
+            format!("{} (same object)", c)
+        } else {
+            c
+        }
     }
     fn feature(&self) -> String {
         g::feature(&self.proc, &self.args).unwrap_or_else(|| "-".into())
@@ -303,6 +327,7 @@ impl Call {
             "call": self.text,
             "proc": self.proc,
             "args": self.args.iter().map(|a| PALETTE[*a].expr).collect::<Vec<_>>(),
+            "aliased": self.aliased,
             "hang_sig": self.noreturn_base(),
         })
     }
@@ -553,6 +578,18 @@ impl<'a> Sweep<'a> {
             return;
         }
         let call = Call::new(proc, args);
+        self.case_call(proc, args, call);
+        if proc != VALUE_PROC {
+            if let Some(shared) = Call::alias_candidate(args) {
+                let aliased = Call::new_aliased(proc, args, shared);
+                self.ctx.class("A:aliased-arguments");
+                self.case_call(proc, args, aliased);
+            }
+        }
+    }
+
+    fn case_call(&mut self, proc: &str, args: &[usize], call: Call) {
+        let ctx = self.ctx;
         if self.noreturn.listed(&call) {
             ctx.class("A:excluded:listed-no-return-cell");
             ctx.extra_add("excluded_listed_no_return_cells", 1);
@@ -832,6 +869,11 @@ fn call_from_payload(payload: &Value) -> Option<Call> {
     let exprs: Vec<&str> = payload["args"].as_array()?.iter().filter_map(|a| a.as_str()).collect();
     let args: Option<Vec<usize>> = exprs.iter().map(|e| g::palette_index(e)).collect();
     let args = args?;
+    if payload["aliased"].as_bool().unwrap_or(false) {
+        if let Some(shared) = Call::alias_candidate(&args) {
+            return Some(Call::new_aliased(&proc, &args, shared));
+        }
+    }
     Some(Call::new(&proc, &args))
 }
 
@@ -904,8 +946,56 @@ fn gen_text(kind: &str, c: &mut Choices) -> (String, &'static str) {
             let (t, k) = rg::gen_mutation(c, None);
             (t, k)
         }
+        "text-session" => (gen_session_text(c), "session"),
         _ => (g::gen_eval_soup(c), "evalsoup"),
     }
+}
+
+/// A session on one Vm in which continuations are data that outlive evaluations: a continuation
+/// is captured under d pending calls and stored; evaluations fail in various ways (run time,
+/// compile time, inside the extent of a captured continuation); the stored continuation is
+/// invoked again from later forms, shallow and deep. Every step must yield a value or an error.
+fn gen_session_text(c: &mut Choices) -> String {
+    let mut t = String::from(
+        "(define c06s-k #f) (define (c06s-deep n) (if (= n 0) (call/cc (lambda (c) (set! c06s-k c) 0)) (+ 1 (c06s-deep (- n 1)))))",
+    );
+    const FAILS: [&str; 10] = [
+        "(car '())",
+        "(vector-ref (vector) 1)",
+        "(error \"boom\" 1)",
+        "c06s-undefined",
+        "(if)",
+        "((lambda (x) x))",
+        "(c06s-deep 'a)",
+        "(+ 1 (c06s-deep 50) (car '()))",
+        "(string-ref \"\" 0)",
+        "(apply c06s-deep '(1 2))",
+    ];
+    let steps = 3 + c.below(7);
+    let mut captured = false;
+    for _ in 0..steps {
+        match c.weighted(&[3, 3, 4, 1]) {
+            0 => {
+                let d = *c.pick(&[0usize, 5, 41, 42, 43, 60, 100, 300][..]);
+                t.push_str(&format!(" (c06s-deep {})", d));
+                captured = true;
+            }
+            1 => {
+                t.push(' ');
+                t.push_str(FAILS[c.below(FAILS.len())]);
+            }
+            2 if captured => {
+                match c.below(3) {
+                    0 => t.push_str(" (c06s-k 1)"),
+                    1 => t.push_str(" (+ 1 (c06s-k 2))"),
+                    _ => t.push_str(" (if (procedure? c06s-k) (begin (define c06s-j c06s-k) (set! c06s-k #f) (c06s-j 3)) 'spent)"),
+                }
+            }
+            2 => t.push_str(" (c06s-deep 2)"),
+            _ => t.push_str(" (list 1 \"a\" (vector))"),
+        }
+    }
+    t
 }
 
 fn scan_panics(t: &str) -> bool {
@@ -1286,6 +1376,7 @@ fn domain_b(ctx: &Ctx) {
     ctx.run_bytes("text-soup", n(5_000, 500_000), 96, |c, b| text_outcome(c, "text-soup", b));
     ctx.run_bytes("text-mut", n(5_000, 500_000), 160, |c, b| text_outcome(c, "text-mut", b));
     ctx.run_bytes("text-evalsoup", n(8_000, 800_000), 128, |c, b| text_outcome(c, "text-evalsoup", b));
+    ctx.run_bytes("text-session", n(3_000, 200_000), 24, |c, b| text_outcome(c, "text-session", b));
     ctx.journal_bytes.set(false);
 }
 
@@ -1348,7 +1439,7 @@ impl Prop for C06 {
         "C06"
     }
     fn rule(&self) -> &'static str {
-        "A (structured): one call (proc arg ...) per case; proc = every global procedure of the running Vm (builtin and prelude), arguments = palette expressions (c06gen::PALETTE: every value kind and the boundary values of the statement); arity 0..2 exhaustive over the palette, arity 3..5 sampled with arguments aimed at the kinds the positions want (thorough: arity 3 exhaustive over the palette for the procedures that take 3 arguments, arity 4..5 sampled). Non-trivial: the call got past the arity check (its outcome is not the arity error); distinct by (procedure, argument-class tuple). B (text): a case is a generated text + cursor + slice budgets; non-trivial when a datum reached the compiler with an outcome other than an unbound variable, or the text does not scan; distinct by text."
+        "A (structured): one call (proc arg ...) per case; proc = every global procedure of the running Vm (builtin and prelude), arguments = palette expressions (c06gen::PALETTE: every value kind and the boundary values of the statement; when a container expression occurs at two positions the call is also made with one shared object at those positions); arity 0..2 exhaustive over the palette, arity 3..5 sampled with arguments aimed at the kinds the positions want (thorough: arity 3 exhaustive over the palette for the procedures that take 3 arguments, arity 4..5 sampled). Non-trivial: the call got past the arity check (its outcome is not the arity error); distinct by (procedure, argument-class tuple). B (text): a case is a generated text (random Unicode, token soup, mutated corpus program, evaluation-oriented soup, or a session in which a continuation captured under up to 300 pending calls is stored, evaluations fail, and the continuation is invoked from later forms) + cursor + slice budgets; non-trivial when a datum reached the compiler with an outcome other than an unbound variable, or the text does not scan; distinct by text."
     }
     fn assumptions(&self) -> Vec<&'static str> {
         vec![
